@@ -124,6 +124,20 @@ var histProgs = []string{
 	"let k=sprintf(\"%d|%v\", a, [b]); let j=k.len(); k+j",
 	"let c=[1,2,3,4,5,6]; let k=c.accept(x->x%(a%3+2)=0); let j=c.map(x->x+b).top(a%4+1); k.string()+j.string()",
 	"let k=(x->if x>a then x-a else a-x); let w={f:k, g:y->k(y)+b}; w.f(b)+w.g(0)*1000",
+	// one call site, receivers of varying kind between evaluations (maps with and without the field,
+	// lists, strings): what a call site learns from one receiver must not leak to the next
+	"(if a%2=0 then {f:x->x+b} else {g:b}).f(3)",
+	"try (if a%3=0 then {g:1} else {f:x->x*a}).f(b) catch 0-1",
+	"[{f:x->x+1},{h:2},{f:x->x*2}][a%3].f(b)",
+	"[[1,2],[3],numbers(4)][a%3].size()+[\"x\", 12, [1]][b%3].string().len()",
+	"try [[1,2],\"ab\",5,{size:x->7}][a%4].size() catch 0-1",
+	"let m=if a%2=0 then {get:x->x+1} else {p:b}; try m.get(\"p\") catch 0-2",
+	// big constant map literals (lookup tables) used by every evaluation
+	"let t={k0:0,k1:10,k2:20,k3:30,k4:40,k5:50,k6:60,k7:70,k8:80,k9:90,k10:100,k11:110}; t.get(\"k\"+a%12)+t.get(\"k\"+b%12)*1000",
+	"let t={k0:0,k1:10,k2:20,k3:30,k4:40,k5:50,k6:60,k7:70,k8:80,k9:90,k10:100,k11:110}; (if (\"k\"+a%14) ~ t then 1 else 0)+(if t.isAvail(\"k\"+b%12) then 10 else 0)+t.k3+t.size()*100",
+	"let t={k0:0,k1:10,k2:20,k3:30,k4:40,k5:50,k6:60,k7:70,k8:80,k9:90,k10:100,k11:110}; t.put(\"n\"+a, b).size()+(t+{z:a}).z+t.k7+t.accept((k,v)->v>a*10).size()*100",
+	"let t={k0:0,k1:10,k2:20,k3:30,k4:40,k5:50,k6:60,k7:70,k8:80,k9:90,k10:100,k11:110}; src.map(x->t.get(\"k\"+x%12)+a).reduce((p,q)->p+q)+t.k1*b",
+	"let t={k0:0,k1:10,k2:20,k3:30,k4:40,k5:50,k6:60,k7:70,k8:80,k9:90,k10:100,k11:110}; let u=t.map((k,v)->v+a); u.k2+u.k11+t.k2",
 }
 
 func genHistArgs(r *rng) []Arg {
@@ -176,8 +190,20 @@ func genC10(r *rng, tier string, clients int) *Case {
 		c := r.intn(clients)
 		var op Op
 		if clients == 1 && r.chance(0.08) {
-			// another Generate on the same generator in between
+			// another Generate on the same generator in between: also with other argument names
+			// (the same names in another order, fewer, different ones) and with texts that fail
 			op = Op{Kind: "gen", Text: histProgs[r.intn(len(histProgs))], ArgNames: []string{"a", "b", "src"}, Fn: nProg + r.intn(2)}
+			switch r.intn(10) {
+			case 0, 1:
+				op.ArgNames = []string{"b", "a", "src"}
+			case 2:
+				op.ArgNames = []string{"src", "b", "a"}
+			case 3:
+				op.Text = pick(r, "a+", "let x=1; let x=2; x", "nosuch(a)", "a.b.c(", "[1,2", "a+zz", "func f(x) g(x); f(a)", "")
+			case 4:
+				op.Text = pick(r, "x*2+y", "let a=x; a+y", "[x,y].map(a->a+1).string()")
+				op.ArgNames = []string{"x", "y", "z"}
+			}
 		} else {
 			fn := r.intn(nProg)
 			if clients == 1 && r.chance(0.1) {
@@ -298,6 +324,21 @@ var c09Derive = []string{
 	"h.mapReduce([v], (acc,x)->acc.append(x))",
 	"h.reduce((p,q)->p+q)",
 	"g.indexWhere(x->x>v)",
+	// nested values handed out by an operation (windows, groups, buffers, accumulators), extended afterwards
+	"h.movingWindow(x->x)[i].append(v)",
+	"h.movingWindow(x->x).map(w->w.append(v))",
+	"h.movingWindow(x->x).first().append(v).append(i)",
+	"h.movingWindowRemove(l->l.size()>2)[i].append(v)",
+	"h.movingWindowRemove(l->l.size()>3).map(w->w.append(v).size())",
+	"h.combineN(3, l->l.append(v))",
+	"h.groupByEqual(x->x%3).map(e->e.values.append(v))",
+	"h.groupByInt(x->x%2).map(e->e.values.append(v))",
+	"h.map(x->[x,v])[i].append(v)",
+	"[h, g][i%2].append(v)",
+	"{a:h, b:g}.a.append(v)",
+	"h.movingWindow(x->x)[i].set(0, v)",
+	"h.movingWindow(x->x)[i].reverse().append(v)",
+	"h.top(i).movingWindow(x->x).last().append(v)",
 }
 var c09DeriveMap = []string{
 	"m.put(\"n\"+v, v)",
@@ -466,20 +507,21 @@ func genC09(r *rng, tier string) *Case {
 
 var refCache = map[string]Outcome{}
 
-func opKey(text string, op *Op, host *HostTables) string {
+func opKey(text string, names []string, op *Op, host *HostTables) string {
 	b, _ := json.Marshal(struct {
 		T string
+		N []string
 		A []Arg
 		C int
 		H *HostTables
-	}{text, op.Args, op.Consume, host})
+	}{text, names, op.Args, op.Consume, host})
 	return string(b)
 }
 
 // isolated evaluates one (program, arguments, consumption) on a fresh generator, alone,
 // sequentially (NumCPU=1, canonical schedule).
 func isolated(text string, names []string, op *Op, host HostTables, o *Obs) Outcome {
-	key := opKey(text, op, &host)
+	key := opKey(text, names, op, &host)
 	if oc, ok := refCache[key]; ok {
 		return oc
 	}
@@ -593,7 +635,8 @@ func judgeC10(name, prop string, sc *Script, r *RunOut, o *Obs) {
 				opText[j], opNames[j] = texts[op.Fn], names[op.Fn]
 			}
 			if op.Kind == "gen" {
-				if op.Fn >= 0 && op.Fn < len(texts) {
+				// a Generate that failed leaves the slot as it was
+				if op.Fn >= 0 && op.Fn < len(texts) && got.Done && got.Ok {
 					texts[op.Fn], names[op.Fn] = op.Text, op.ArgNames
 				}
 				continue
